@@ -202,6 +202,8 @@ func backgroundValue(path string) int {
 // directory holding exactly the 21 frames that follow the request, in order.
 func init() {
 	runners["TESTREC"] = func(rng *rand.Rand, n int, tier string, emit func(Case)) {
+		var rin raceInput
+		replay := loadReplay(&rin)
 		for i := 0; i < n; i++ {
 			every := 23 + rng.Intn(30)
 			in := raceInput{Preview: 1, Trigger: 2, Frames: 150 + rng.Intn(60), Conns: 1, Requesters: every, PauseUs: []int{0, 40}[i%2], Const: i%2 == 0, DynOff: i%2 == 1, Throttle: i%2 == 1}
@@ -218,6 +220,9 @@ func init() {
 				// a scene that warms up fast enough to be motion all the time: test recordings overlap motion recordings
 				in.DynOff, in.Throttle, in.PauseUs = false, false, 0
 				in.Step, in.Base = 2, 3000
+			}
+			if replay {
+				in, every = rin, rin.Requesters
 			}
 			sum, ok := snapSeqRun(in)
 			why := ""
@@ -271,6 +276,9 @@ func init() {
 			emit(Case{Coq: fmt.Sprintf("mkLag %s %d %d", coqBool(ok), len(reqs), in.Frames), Input: in,
 				Impl: map[string]interface{}{"ok": ok, "why": why, "summary": sum},
 				Tags: []string{fmt.Sprintf("test-requests=%d", len(reqs)), "test-recording-e2e", fmt.Sprintf("connections=%d", max1(in.SnapConns)), fmt.Sprintf("motion-recordings-alongside=%v", sum != nil && num(sum["motion_files"]) > 0)}, Nontriv: len(reqs) >= 2, Key: fmt.Sprint("testrec", every, in.Frames)})
+			if replay {
+				return
+			}
 		}
 	}
 }
